@@ -20,7 +20,7 @@ func init() {
 		Rule: "RateLimitedAttester.VerifyRequest on honest requests (made by pat-go's client and by the harness's own signer), every single-bit flip of every field of one honest request per client (request key, name key id, ciphertext, signature, blind, client key: exhaustive; every fourth flip also on a request object decoded from the wire and marshalled before the tampering, so a stale encoding cache cannot stand in for the fields), signatures by unrelated keys, signatures of other requests, (r, N-s), r or s in {0, N}, wrong/shifted blinds, leading-zero blinds, wrong or malformed client and request keys. " +
 			"Oracle: accept iff crypto/ecdsa.Verify(request key, SHA-384(type||request_key||name_key_id||len16||ciphertext), r, s) and request_key == compress(hash_to_field-blind(client key, blind, 0x0003||\"ClientBlind\")) computed by the reference; on reject: non-nil error, zero Put calls and every cached state snapshot unchanged; on accept: state is registered for this client only and no other client's snapshot changes. " +
 			"distinct_nontrivial = distinct (case class, field, bit) keys",
-		Floors:      []string{"accept_agree", "reject_agree", "reject_bad_signature", "reject_key_mismatch", "reject_malformed_key", "bitflips", "tampered_after_marshal", "tampered_after_original_accepted", "state_unchanged_on_reject", "state_registered_on_accept"},
+		Floors:      []string{"accept_agree", "reject_agree", "reject_bad_signature", "reject_key_mismatch", "reject_malformed_key", "bitflips", "tampered_after_marshal", "tampered_after_original_accepted", "state_unchanged_on_reject", "state_registered_on_accept", "stream_accept_agree", "stream_reject_agree"},
 		Assumptions: []string{"request structs have the shapes the wire decoder produces (49/32/1..65535/96 bytes)", "crypto/ecdsa and crypto/elliptic of the Go standard library are the reference"},
 		Run:         runC06,
 	})
@@ -73,8 +73,67 @@ type c06Pre struct {
 	brk       []byte
 }
 
+// c06Stream is one long-lived attester that sees every case of this worker process, one after the other, with all
+// arguments (request fields, blind, client key) handed over in buffers that are refilled in place.
+type c06Stream struct {
+	att                         *type3.RateLimitedAttester
+	cache                       *memCache
+	rk, nk, ct, sg, blind, ckey []byte
+	n                           int
+	prev                        string
+}
+
+func (w *c06World) streamCall(cs *c06Case, want bool, why string) {
+	c := w.c
+	if w.stream == nil {
+		w.stream = &c06Stream{cache: newMemCache()}
+		w.stream.att = type3.NewRateLimitedAttester(w.stream.cache)
+	}
+	st := w.stream
+	fill := func(buf *[]byte, v []byte) []byte {
+		if v == nil {
+			return nil
+		}
+		*buf = append((*buf)[:0], v...)
+		return *buf
+	}
+	req := type3.RateLimitedTokenRequest{RequestKey: fill(&st.rk, cs.req.RequestKey), NameKeyID: fill(&st.nk, cs.req.NameKeyID), EncryptedTokenRequest: fill(&st.ct, cs.req.EncryptedTokenRequest), Signature: fill(&st.sg, cs.req.Signature)}
+	blind, ckey := fill(&st.blind, cs.blind), fill(&st.ckey, cs.clientKey)
+	before := snapshotAll(st.cache)
+	keysBefore := len(st.cache.m)
+	c.Eval(1)
+	var err error
+	pan, pv, where := core.Guard(func() { err = st.att.VerifyRequest(req, blind, ckey, []byte("anon")) })
+	d := map[string]any{"class": cs.class, "request_key": core.Hex(cs.req.RequestKey), "name_key_id": core.Hex(cs.req.NameKeyID), "ciphertext": core.Hex(cs.req.EncryptedTokenRequest),
+		"signature": core.Hex(cs.req.Signature), "blind": core.Hex(cs.blind), "client_key": core.Hex(cs.clientKey), "reference": why, "stream_position": st.n, "previous_class": st.prev}
+	st.n++
+	defer func() { st.prev = cs.class }()
+	if pan {
+		c.Violation("VerifyRequest:stream:panic:"+where, "VerifyRequest panicked on a long-lived attester: "+pv, d)
+		return
+	}
+	if got := err == nil; got != want {
+		if got {
+			c.Violation("VerifyRequest:stream:accepted-unauthentic:"+why, "a long-lived attester that had just handled the previous case (arguments in the same buffers) accepted a request the reference rejects ("+why+", "+cs.class+")", d)
+		} else {
+			c.Violation("VerifyRequest:stream:rejected-authentic", "a long-lived attester that had just handled the previous case (arguments in the same buffers) rejected an authentic request ("+cs.class+"): "+err.Error(), d)
+		}
+		return
+	}
+	if !want {
+		if len(st.cache.m) != keysBefore || !reflect.DeepEqual(before, snapshotAll(st.cache)) {
+			c.Violation("VerifyRequest:stream:state-changed-on-reject", "a rejected request created or altered client state in a long-lived attester's cache", d)
+			return
+		}
+		c.Class("stream_reject_agree")
+		return
+	}
+	c.Class("stream_accept_agree")
+}
+
 type c06World struct {
-	c *core.Ctx
+	stream *c06Stream
+	c      *core.Ctx
 	// pre-registered clients whose state must never change on a rejected call
 	pre []c06Pre
 }
@@ -93,6 +152,7 @@ func (w *c06World) call(cs *c06Case) {
 	c.Eval(1)
 	c.Note("VerifyRequest " + cs.class)
 	want, why := c06AcceptRef(cs)
+	defer w.streamCall(cs, want, why)
 	cache := newMemCache()
 	att := type3.NewRateLimitedAttester(cache)
 	// two known clients with bindings in place (registered through honest calls)
